@@ -115,6 +115,7 @@ func Run[C any](t *testing.T, id string, rec *evid.Rec, gen func(*rapid.T) C, ch
 		return
 	}
 	defer rec.Flush()
+	curProperty, curTest = id, t.Name()
 	rapid.Check(t, func(rt *rapid.T) {
 		c := gen(rt)
 		vs := safeCheck(c, rec, check)
@@ -125,7 +126,15 @@ func Run[C any](t *testing.T, id string, rec *evid.Rec, gen func(*rapid.T) C, ch
 	})
 }
 
+// curTest names the test whose cases safeCheck is running (one test per process).
+var curTest, curProperty string
+
 func safeCheck[C any](c C, rec *evid.Rec, check func(C, *evid.Rec) []Violation) (vs []Violation) {
+	// every case runs under the hang watchdog: a call of the code under test that
+	// never returns (a deadlock) ends the process with the case saved, instead of
+	// eating the job's time budget
+	done := Watch(curProperty, curTest, c)
+	defer done()
 	defer func() {
 		if r := recover(); r != nil {
 			if IsRapidStop(r) {
@@ -165,6 +174,7 @@ func replay[C any](t *testing.T, id, path string, rec *evid.Rec, check func(C, *
 		t.Fatalf("replay: cannot decode case: %v", err)
 	}
 	fmt.Printf("REPLAY-RAN property=%s test=%s\n", id, t.Name())
+	curProperty, curTest = id, t.Name()
 	vs := safeCheck(c, rec, check)
 	bad := filter(id, rec, vs)
 	for _, v := range vs {
@@ -257,6 +267,7 @@ func Enumerate[C any](t *testing.T, id string, rec *evid.Rec, cases []C, check f
 		return
 	}
 	defer rec.Flush()
+	curProperty, curTest = id, t.Name()
 	shard, shards := 0, 1
 	fmt.Sscan(os.Getenv("VERIF_SHARD"), &shard)
 	fmt.Sscan(os.Getenv("VERIF_SHARDS"), &shards)
